@@ -360,8 +360,10 @@ fn apply(st: &mut St, op: &Op) -> R<bool> {
             m.extend(made);
             st.model = m;
         }
-        Op::Extend(m, _) | Op::FromIter(m, _) => {
-            let from_iter = matches!(op, Op::FromIter(..));
+        Op::Extend(m, _) | Op::FromIter(m, _) | Op::ExtendPairs(m, _) | Op::Unzip(m, _) => {
+            let from_iter = matches!(op, Op::FromIter(..) | Op::Unzip(..));
+            let unzip = matches!(op, Op::Unzip(..));
+            let pairs = matches!(op, Op::ExtendPairs(..));
             let mut made = Vec::new();
             let m = *m;
             let r = {
@@ -373,7 +375,7 @@ fn apply(st: &mut St, op: &Op) -> R<bool> {
                     p
                 });
                 if from_iter {
-                    match catch_unwind(AssertUnwindSafe(|| crate::deq::from_iter_dyn::<Plain>(n, &mut it))) {
+                    match catch_unwind(AssertUnwindSafe(|| if unzip { crate::deq::unzip_dyn::<Plain>(n, &mut it) } else { crate::deq::from_iter_dyn::<Plain>(n, &mut it) })) {
                         Ok(b) => {
                             st.buf = Some(b);
                             st.model.clear();
@@ -386,7 +388,7 @@ fn apply(st: &mut St, op: &Op) -> R<bool> {
                         }
                     }
                 } else {
-                    st.call(move |b| b.extend_dyn(&mut it))
+                    st.call(move |b| if pairs { b.extend_pairs_dyn(&mut it) } else { b.extend_dyn(&mut it) })
                 }
             };
             cc!(r);
